@@ -65,7 +65,21 @@ Theorem C18_first_unreadable_named : forall fs path_join dir content pre line po
 Proof. exact first_unreadable_panics. Qed.
 Print Assumptions C18_first_unreadable_named.
 
+(** histories (re-runs in the same directory, list and samples edited in between): README.md is
+    exactly the rendering of the last run when all its files were readable, whatever README.md held
+    before (sys.WriteFile truncates), and a failing run leaves README.md as the earlier runs left it *)
+Theorem C18_history_last_run : forall path_join h fs content before dir,
+  ((forall line, In line (entries content) -> readable fs path_join dir line) ->
+   tool_history path_join before dir (h ++ [(fs, content)]) =
+   Some (header ++ join [nl] (map (section_of fs path_join dir) (entries content)))) /\
+  ((exists line, In line (entries content) /\ ~ readable fs path_join dir line) ->
+   tool_history path_join before dir (h ++ [(fs, content)]) = tool_history path_join before dir h).
+Proof. exact history_last_run. Qed.
+Print Assumptions C18_history_last_run.
+
 (** non-vacuity *)
+Definition render_ok (o : outcome bytes) : option bytes := match o with Ok s => Some s | Panic _ => None end.
+
 Example C18_example_render :
   render_files [(b "d/a.fo", b "AAA"); (b "d/b", b "B`%")] (b "d")
                (b "a.fo Title one" ++ [nl; nl] ++ b "b" ++ [nl])
@@ -79,4 +93,14 @@ Proof. vm_compute. reflexivity. Qed.
 Example C18_example_missing :
   render_files [(b "d/a.fo", b "AAA")] (b "d") (b "a.fo T" ++ [nl] ++ b "c.fo x" ++ [nl])
   = Panic (b "Can't open file c.fo").
+Proof. vm_compute. reflexivity. Qed.
+
+Example C18_example_history :
+  history_files None (b "d")
+    [([(b "d/a.fo", b "AAA"); (b "d/b.fo", b "BBBBBBBBBBBB")], b "a.fo" ++ [nl] ++ b "b.fo B");
+     ([(b "d/a.fo", b "A")], b "a.fo" ++ [nl] ++ b "b.fo B");
+     ([(b "d/a.fo", b "A")], b "a.fo")]
+  = [render_ok (render_files [(b "d/a.fo", b "AAA"); (b "d/b.fo", b "BBBBBBBBBBBB")] (b "d") (b "a.fo" ++ [nl] ++ b "b.fo B"));
+     render_ok (render_files [(b "d/a.fo", b "AAA"); (b "d/b.fo", b "BBBBBBBBBBBB")] (b "d") (b "a.fo" ++ [nl] ++ b "b.fo B"));
+     render_ok (render_files [(b "d/a.fo", b "A")] (b "d") (b "a.fo"))].
 Proof. vm_compute. reflexivity. Qed.
